@@ -107,10 +107,22 @@ def main(argv=None):
     except driver.DriverError as e:
         print('TOOL FAILURE: %s' % e)
         return 2
-    except Exception:
-        traceback.print_exc()
-        print('TOOL FAILURE: suite crashed')
-        return 2
+    except Exception as e:
+        tb = traceback.extract_tb(e.__traceback__)
+        in_lib = [fr for fr in tb if os.sep + 'oslo_policy' + os.sep in fr.filename and os.sep + 'tests' + os.sep not in fr.filename]
+        if not in_lib:
+            traceback.print_exc()
+            print('TOOL FAILURE: suite crashed')
+            return 2
+        # the exception was raised inside the library under check while the suite exercised it: on the unchanged tree this
+        # does not happen, so the code has left the behaviour the model mirrors; reported like a lost correspondence
+        # (with whatever failing inputs the suite had already found)
+        where = in_lib[-1]
+        rep.disagree('library-raised', {'exception': '%s: %s' % (type(e).__name__, str(e)[:300]),
+                                        'raised_at': '%s:%d in %s' % (where.filename, where.lineno, where.name),
+                                        'suite_frame': next(('%s:%d' % (fr.filename, fr.lineno) for fr in reversed(tb)
+                                                             if os.sep + 'opverif' + os.sep in fr.filename), '?')},
+                     'no exception', 'exception escaped from the library')
 
     known = load_known()
     new_failures, known_hits = [], {}
